@@ -136,6 +136,30 @@ m("C-3", "C02", "", ("x/node/keeper/node.go", "\tfor ; iterator.Valid(); iterato
 m("C-4", "C09", "", ("x/sao/keeper/msg_server_terminate.go", '"No permission to delete the model"', '"permission denied: model deletion"'))
 m("C-1", "C10", "", ("x/sao/keeper/msg_server_ready.go", "order, found := k.order.GetOrder(ctx, msg.OrderId)\n\tif !found {", "o, ok := k.order.GetOrder(ctx, msg.OrderId)\n\torder := o\n\tfound := ok\n\tif !found {"))
 
+m("M-memkey", "C03", "D3-mem", ("app/app.go", "\t\tkeys[saomoduletypes.StoreKey],\n\t\tkeys[ordermoduletypes.StoreKey],\n\t\tkeys[saomoduletypes.MemStoreKey],", "\t\tmemKeys[saomoduletypes.StoreKey],\n\t\tkeys[ordermoduletypes.StoreKey],\n\t\tkeys[saomoduletypes.MemStoreKey],"))
+
+# ---------------------------------------------------------------- round-2 rules: hand-made variants and faithful controls
+m("M-bookpair", "C14", "T-book-pair", ("x/sao/keeper/expire_management.go", "\tk.market.WorkerRelease(ctx, &order, &shard)\n\tif len(shard.RenewInfos) == 0 {", "\tif len(shard.RenewInfos) == 0 {"))
+m("C-9", "C14", "", ("x/sao/keeper/expire_management.go", "\tk.market.WorkerRelease(ctx, &order, &shard)\n\tif len(shard.RenewInfos) == 0 {\n", "\tif len(shard.RenewInfos) == 0 {\n\t\tk.market.WorkerRelease(ctx, &order, &shard)\n"),
+  ("x/sao/keeper/expire_management.go", "\t} else {\n\t\tnextOrderInfo := shard.RenewInfos[0]\n", "\t} else {\n\t\tk.market.WorkerRelease(ctx, &order, &shard)\n\t\tnextOrderInfo := shard.RenewInfos[0]\n"))
+m("M-refclass", "C04", "T-refund-class", ("x/market/keeper/pool_management.go", "\t\t} else if shard.Status == ordertypes.ShardWaiting {\n", "\t\t} else {\n"))
+m("M-refclass6", "C06", "T-refund-class", ("x/market/keeper/pool_management.go", "\t\t} else if shard.Status == ordertypes.ShardWaiting {\n", "\t\t} else if shard.Status != ordertypes.ShardTimeout {\n"))
+m("C-7", "C04", "", ("x/market/keeper/pool_management.go", "\t\tif shard.Status == ordertypes.ShardCompleted && shard.OrderId == order.Id {\n", "\t\tif shard.OrderId == order.Id && shard.Status == ordertypes.ShardCompleted {\n"))
+m("M-rollback", "C05", "T-rollback", ("x/model/keeper/data_management.go", "metadata.OrderId = metadata.Orders[len(metadata.Orders)-1]", "metadata.OrderId = metadata.Orders[0]"))
+m("C-8", "C05", "", ("x/model/keeper/data_management.go", "\tmetadata.OrderId = metadata.Orders[len(metadata.Orders)-1]\n", "\tlastOrder := len(metadata.Orders) - 1\n\tmetadata.OrderId = metadata.Orders[lastOrder]\n"))
+m("M-claim-persist", "C08", "T-claim", ("x/node/keeper/msg_server_claim_reward.go", "\tk.SetPledge(ctx, pledge)\n\n\tclaimReward = claimReward.Add(workerReward)", "\tif !workerReward.IsZero() {\n\t\tk.SetPledge(ctx, pledge)\n\t}\n\n\tclaimReward = claimReward.Add(workerReward)"))
+m("C-10", "C08", "", ("x/node/keeper/msg_server_claim_reward.go", "\tpledge.Reward = remainReward\n", "\tpledge.Reward = remainReward\n\tk.SetPledge(ctx, pledge)\n"),
+  ("x/node/keeper/msg_server_claim_reward.go", "\tk.SetPledge(ctx, pledge)\n\n\tclaimReward = claimReward.Add(workerReward)", "\tclaimReward = claimReward.Add(workerReward)"))
+m("M-replace", "C12", "T-replace", ("x/sao/keeper/timeout_management.go", "\t\t\tnewShard := k.order.NewShardTask(ctx, &order, node.Creator)\n\t\t\torder.Shards = append(order.Shards, newShard.Id)\n", "\t\t\tif node.Creator != shard.Sp {\n\t\t\t\tnewShard := k.order.NewShardTask(ctx, &order, node.Creator)\n\t\t\t\torder.Shards = append(order.Shards, newShard.Id)\n\t\t\t}\n"))
+m("M-aliasfree", "C13", "G-alias-free", ("x/model/keeper/data_management.go", "\tif found_model {\n", "\tif found_model && metadata.Alias != \"\" {\n"))
+m("M-paykey", "C17", "T-paykey", ("x/did/keeper/msg_server_update_payment_address.go", "\t\t\t\tKid:     msg.Did,\n", "\t\t\t\tKid:     did.ID,\n"))
+m("M-takeover", "C11", "T-takeover", ("x/sao/keeper/msg_server_complete.go", "\t\tshard.RenewInfos = oldShard.RenewInfos\n", ""))
+m("M-base-latest", "C16", "T-base", ("x/sao/keeper/msg_server_store.go", "if !strings.Contains(meta.Commit, lastCommitId) {", "if !strings.Contains(strings.Join(meta.Commits, \",\"), lastCommitId) {"))
+m("C-11", "C03", "", ("x/sao/keeper/expired_shard.go", "\tstore := prefix.NewStore(ctx.KVStore(k.storeKey), types.KeyPrefix(types.ExpiredShardKeyPrefix))\n", "\tstore := k.expiredShardStore(ctx)\n"),
+  ("x/sao/keeper/expired_shard.go", "// SetExpiredShard set", "func (k Keeper) expiredShardStore(ctx sdk.Context) prefix.Store {\n\treturn prefix.NewStore(ctx.KVStore(k.storeKey), types.KeyPrefix(types.ExpiredShardKeyPrefix))\n}\n\n// SetExpiredShard set"))
+m("C-11b", "C11", "", ("x/sao/keeper/expired_shard.go", "\tstore := prefix.NewStore(ctx.KVStore(k.storeKey), types.KeyPrefix(types.ExpiredShardKeyPrefix))\n", "\tstore := k.expiredShardStore(ctx)\n"),
+  ("x/sao/keeper/expired_shard.go", "// SetExpiredShard set", "func (k Keeper) expiredShardStore(ctx sdk.Context) prefix.Store {\n\treturn prefix.NewStore(ctx.KVStore(k.storeKey), types.KeyPrefix(types.ExpiredShardKeyPrefix))\n}\n\n// SetExpiredShard set"))
+
 # patch-file mutants / controls: (id, property, expected rule or "" for silent, patch path)
 P = [
  ("C-5", "C19", "", "/verif/tools/controls/C-5-faithful-helper-reportfaults.diff"),
@@ -159,6 +183,27 @@ P = [
  ("S-C11-a1", "C11", "T-paid-end", "/verif/seeded/C11-a1/patch.diff"),
  ("S-C12-a1", "C12", "T-timeout-height", "/verif/seeded/C12-a1/patch.diff"),
  ("S-C13-a1", "C13", "T-partition", "/verif/seeded/C13-a1/patch.diff"),
+ ("S-C01-a2", "C01", "D3", "/verif/seeded/C01-a2/patch.diff"),
+ ("S-C02-a2", "C02", "T-couple", "/verif/seeded/C02-a2/patch.diff"),
+ ("S-C03-a2", "C03", "D3-mem", "/verif/seeded/C03-a2/patch.diff"),
+ ("S-C04-a2", "C04", "T-refund-class", "/verif/seeded/C04-a2/patch.diff"),
+ ("S-C05-a2", "C05", "T-rollback", "/verif/seeded/C05-a2/patch.diff"),
+ ("S-C06-a2", "C06", "T-refund-class", "/verif/seeded/C06-a2/patch.diff"),
+ ("S-C07-a2", "C07", "G-rmv", "/verif/seeded/C07-a2/patch.diff"),
+ ("S-C08-a2", "C08", "T-claim", "/verif/seeded/C08-a2/patch.diff"),
+ ("S-C09-a2", "C09", "G-store-upd", "/verif/seeded/C09-a2/patch.diff"),
+ ("S-C10-a2", "C10", "G-cancel", "/verif/seeded/C10-a2/patch.diff"),
+ ("S-C11-a2", "C11", "T-takeover", "/verif/seeded/C11-a2/patch.diff"),
+ ("S-C12-a2", "C12", "T-replace", "/verif/seeded/C12-a2/patch.diff"),
+ ("S-C13-a2", "C13", "G-alias-free", "/verif/seeded/C13-a2/patch.diff"),
+ ("S-C14-a2", "C14", "T-book-pair", "/verif/seeded/C14-a2/patch.diff"),
+ ("S-C15-a2", "C15", "T-ignore", "/verif/seeded/C15-a2/patch.diff"),
+ ("S-C16-a2", "C16", "T-base", "/verif/seeded/C16-a2/patch.diff"),
+ ("S-C17-a2", "C17", "T-paykey", "/verif/seeded/C17-a2/patch.diff"),
+ ("S-C18-a2", "C18", "E6-all", "/verif/seeded/C18-a2/patch.diff"),
+ ("S-C19-a2", "C19", "G-fish", "/verif/seeded/C19-a2/patch.diff"),
+ ("S-C20-a2", "C20", "G-demote", "/verif/seeded/C20-a2/patch.diff"),
+ ("C-6", "C18", "", "/verif/tools/controls/C-6-iterate-callback-export.diff"),
 ]
 for (id, prop, rule, path) in P:
     M.append((id, prop, rule, [("@patch", path, "")]))
